@@ -6,6 +6,7 @@ package main
 
 import (
 	"context"
+	"encoding/binary"
 	"encoding/json"
 	"errors"
 	"fmt"
@@ -15,6 +16,8 @@ import (
 	"time"
 
 	netty "github.com/go-netty/go-netty"
+	"github.com/go-netty/go-netty/codec/format"
+	"github.com/go-netty/go-netty/codec/frame"
 	"github.com/go-netty/go-netty/utils/pool/pbuffer"
 	"github.com/go-netty/go-netty/utils/pool/pbytes"
 	"github.com/go-netty/go-netty/zz_verif/explore"
@@ -276,6 +279,31 @@ func idleScenario(kind string, bound int) *explore.Scenario {
 	}
 }
 
+// codecs: one codec instance is shared by every goroutine that writes to the channel
+func codecScenario(name string, hs func() []netty.Handler, msg func(i int) any, bound int) *explore.Scenario {
+	return &explore.Scenario{
+		Name:  "codec/" + name + ": two goroutines Channel.Write through one codec instance",
+		Bound: bound,
+		Cache: true,
+		Cfg:   vsched.Config{MaxSteps: 6000, Race: true},
+		Init:  func() any { return &struct{}{} },
+		Body: func(v any) {
+			t := mock.NewTransport("t")
+			pl := netty.NewPipeline()
+			pl.AddLast(sinkH{})
+			pl.AddLast(hs()...)
+			ch := netty.NewChannel()(1, context.Background(), pl, t, netty.AsyncExecutor())
+			pl.ServeChannel(ch)
+			a := vsched.Go("w1", func() { ch.Write(msg(1)) })
+			b := vsched.Go("w2", func() { ch.Write(msg(2)) })
+			vsched.Join(a)
+			vsched.Join(b)
+		},
+		Outcome: func(x *vsched.Exec, v any) string { return fmt.Sprint(len(x.Races), x.Steps()) },
+		Check:   func(x *vsched.Exec, v any) []explore.Finding { return raceFindings(x) },
+	}
+}
+
 func poolScenario(bound int) *explore.Scenario {
 	return &explore.Scenario{
 		Name:  "pools/pbytes and pbuffer Get||Put from two goroutines",
@@ -371,7 +399,17 @@ func main() {
 					json.Unmarshal(desc, &bc)
 					c.ReplaySub(bootScenario(bc, b))
 				},
-			}, holderScenario(b), idleScenario("read", b+1), idleScenario("write", b+1), poolScenario(b + 1)}
+			}, holderScenario(b), idleScenario("read", b+1), idleScenario("write", b+1), poolScenario(b + 1),
+				codecScenario("varint+json", func() []netty.Handler {
+					return []netty.Handler{frame.VarintLengthFieldCodec(1 << 16), format.JSONCodec(true, false)}
+				}, func(i int) any { return map[string]interface{}{"id": i} }, b+1),
+				codecScenario("length-field+text", func() []netty.Handler {
+					return []netty.Handler{frame.LengthFieldCodec(binary.BigEndian, 1<<16, 0, 2, 0, 2), format.TextCodec()}
+				}, func(i int) any { return strings.Repeat("x", i*3) }, b+1),
+				codecScenario("delimiter+text", func() []netty.Handler {
+					return []netty.Handler{frame.DelimiterCodec(1<<16, "\n", true), format.TextCodec()}
+				}, func(i int) any { return strings.Repeat("y", i*3) }, b+1),
+			}
 			return scs
 		},
 	})
